@@ -15,7 +15,9 @@ package rules
 //                        implementation's ChooseServer method.
 //
 // Files: c04.go (resolution, flow-engine rules R-C04-1/2/6/7 and the publish-before-use part of
-// R-C04-3), c04_ssa.go (SSA rules: element-of-list half of R-C04-2, R-C04-3, R-C04-4, R-C04-5).
+// R-C04-3), c04_ssa.go (SSA rules: element-of-list half of R-C04-2, R-C04-3, R-C04-4, R-C04-5),
+// c04_weighted.go (R-C04-8, added in the second pass for seeded change a: weighted selection =
+// cumulative subtraction over exactly the summed weights; its mutants are listed there).
 //
 // Tested on the tree this was developed against (scratch worktree @ ce8b88e): exit 1 with
 // exactly one violation,
@@ -120,7 +122,7 @@ func c04(c *core.Ctx) string {
 	c.NotDecided = []string{
 		"statistical fairness of random / weightedRandom and the numeric floor(k/n)/ceil(k/n) counts (only the single-fetch-add shape is decided; counter wrap-around at 2^64 and int(counter) going negative after 2^63 selections are ignored)",
 		"that the hash policies' index is a function of the key only (decided: no other input is reachable; not decided: the value flow through hash.Hash)",
-		"the explicit panic at the end of weightedRandom's loop (unreachable by arithmetic when totalWeight > 0; arithmetic is not decided) and zero-weight servers never being picked",
+		"weightedRandom: that a positive-weight server is chosen with probability weight/total (decided: the cumulative-subtraction shape that excludes zero-weight servers, R-C04-8; the statement after the selection loop is unreachable by arithmetic given that shape and is not judged)",
 		"aliasing of the static spec.Servers slice with the published list (writers of ServerPoolSpec.Servers outside the proxy package are not audited)",
 		"interleavings of list replacement with selection (the atomic-publish discipline is decided, schedules are not explored)",
 	}
@@ -139,6 +141,7 @@ func c04(c *core.Ctx) string {
 	c04Discovery(c, info)
 	c04Published(c, info)
 	c04SSA(c, info)
+	c04Weighted(c, info)
 	return "Shape rules for the proxy load balancers: nil result never dereferenced or sent (path-sensitive, all ChooseServer call sites); every implementation returns nil only for a list known empty and otherwise an element load of its immutable list (flow engine + SSA value flow); list/keys/weights immutable after construction and the balancer published only through atomic.Value on every path of NewServerPool; the round-robin index comes from a single atomic fetch-add; hash policies reach no source of nondeterminism or mutable state; every random bound / divisor is proven positive on all paths; discovery publishes the filtered list or, exactly when it is empty, the static list. Not decided: distributions and counts, arithmetic reachability of the weightedRandom BUG panic, schedules."
 }
 
@@ -471,6 +474,11 @@ func (q *c04Facts) stable(e ast.Expr, depth int) bool {
 		if b, ok := q.f.Callee(x).(*types.Builtin); ok && (b.Name() == "len" || b.Name() == "cap") && len(x.Args) == 1 {
 			return q.stable(x.Args[0], depth+1)
 		}
+	case *ast.BinaryExpr:
+		switch x.Op {
+		case token.ADD, token.SUB, token.MUL:
+			return q.stable(x.X, depth+1) && q.stable(x.Y, depth+1)
+		}
 	}
 	return false
 }
@@ -565,6 +573,24 @@ func (q *c04Facts) zeroK(st *flow.State, k string) bool {
 func (q *c04Facts) positive(st *flow.State, e ast.Expr) bool {
 	if tv, ok := q.f.Info.Types[e]; ok && tv.Value != nil {
 		return constant.Sign(tv.Value) > 0
+	}
+	// positive + non-negative constant (either order), positive * positive; stable aliases and
+	// integer conversions are looked through
+	if b, ok := q.resolve(e).(*ast.BinaryExpr); ok {
+		nonnegConst := func(x ast.Expr) bool {
+			tv, ok := q.f.Info.Types[x]
+			return ok && tv.Value != nil && constant.Sign(tv.Value) >= 0
+		}
+		switch b.Op {
+		case token.ADD:
+			if (nonnegConst(b.Y) && q.positive(st, b.X)) || (nonnegConst(b.X) && q.positive(st, b.Y)) {
+				return true
+			}
+		case token.MUL:
+			if q.positive(st, b.X) && q.positive(st, b.Y) {
+				return true
+			}
+		}
 	}
 	return q.positiveK(st, q.canon(e, 0))
 }
